@@ -26,6 +26,7 @@ import (
 
 	"github.com/arana-db/parser/ast"
 	"github.com/arana-db/parser/model"
+	"github.com/arana-db/parser/opcode"
 
 	"seata.apache.org/seata-go/pkg/datasource/sql/datasource"
 	"seata.apache.org/seata-go/pkg/datasource/sql/exec"
@@ -422,6 +423,8 @@ func (i *insertExecutor) parsePkValuesFromStatement(insertStmt *ast.InsertStmt, 
 				}
 				if node, ok := list[tmpPkIndex].(ast.ValueExpr); ok {
 					pkValuesMap[tmpPkName] = append(pkValuesMap[tmpPkName], node.GetValue())
+				} else if value, ok := keyLiteralOf(list[tmpPkIndex]); ok {
+					pkValuesMap[tmpPkName] = append(pkValuesMap[tmpPkName], value)
 				}
 			}
 		}
@@ -608,6 +611,31 @@ func containsColumns(parseCtx *types.ParseContext) bool {
 	return len(parseCtx.InsertStmt.Columns) > 0
 }
 
+// keyLiteralOf evaluates what a VALUES list may carry for a key column besides a plain literal: a negated
+// number (the parser delivers -5 as an operation on 5) and the DEFAULT keyword, which like NULL leaves an
+// AUTO_INCREMENT key to the database
+func keyLiteralOf(node ast.ExprNode) (interface{}, bool) {
+	switch n := node.(type) {
+	case *ast.DefaultExpr:
+		return nil, true
+	case *ast.UnaryOperationExpr:
+		if n.Op != opcode.Minus {
+			return nil, false
+		}
+		if v, ok := n.V.(ast.ValueExpr); ok {
+			switch x := v.GetValue().(type) {
+			case int64:
+				return -x, true
+			case uint64:
+				return -int64(x), true
+			case float64:
+				return -x, true
+			}
+		}
+	}
+	return nil, false
+}
+
 func getInsertRows(insertStmt *ast.InsertStmt, pkIndexArray []int) ([][]interface{}, error) {
 	if insertStmt == nil {
 		return nil, nil
@@ -620,10 +648,19 @@ func getInsertRows(insertStmt *ast.InsertStmt, pkIndexArray []int) ([][]interfac
 	for _, nodes := range insertStmt.Lists {
 		var row []interface{}
 		for i, node := range nodes {
+			isPk := false
+			for _, index := range pkIndexArray {
+				if index == i {
+					isPk = true
+				}
+			}
 			if _, ok := node.(ast.ParamMarkerExpr); ok {
 				row = append(row, sqlPlaceholder)
 			} else if newNode, ok := node.(ast.ValueExpr); ok {
 				row = append(row, newNode.GetValue())
+			} else if value, ok := keyLiteralOf(node); ok && isPk {
+				// a negated number, or DEFAULT (the database assigns the key, as for NULL)
+				row = append(row, value)
 			} else if newNode, ok := node.(*ast.VariableExpr); ok {
 				row = append(row, newNode.Name)
 			} else if _, ok := node.(*ast.FuncCallExpr); ok {
